@@ -446,7 +446,7 @@ bool Model::do_get(int c, const JV &req, const JV &params) {
 	}
 	host->probe("get");
 	if (set.a.size() >= 2) host->probe("get_selected>=2");
-	respond(c, req, rc == 2 ? Exp::R_ERR_OR_GETSET : Exp::R_GETSET, rule.all ? "C04" : "C16", "get", set);
+	respond(c, req, rc == 2 ? Exp::R_ERR_OR_GETSET : Exp::R_GETSET, have_creds ? "C08" : rule.all ? "C04" : "C16", "get", set);
 	return true;
 }
 
